@@ -200,6 +200,24 @@ func (mc *MetricsCollector) UpdateBackendConnections(backendName string, connect
 	backend.ActiveConnections = connections
 }
 
+// SyncBackendConnections publishes a backend's in-flight gauge. The gauge is
+// read while the metrics lock is held, so a slower writer can never overwrite a
+// newer value with the older one it read before taking the lock.
+func (mc *MetricsCollector) SyncBackendConnections(backendName string, load func() int32) {
+	mc.metrics.mutex.Lock()
+	defer mc.metrics.mutex.Unlock()
+
+	backend, exists := mc.metrics.BackendMetrics[backendName]
+	if !exists {
+		backend = &BackendMetrics{
+			Name: backendName,
+		}
+		mc.metrics.BackendMetrics[backendName] = backend
+	}
+
+	backend.ActiveConnections = load()
+}
+
 // RecordRateLimitedRequest records a rate-limited request
 func (mc *MetricsCollector) RecordRateLimitedRequest() {
 	atomic.AddUint64(&mc.metrics.RateLimitedRequests, 1)
